@@ -516,6 +516,7 @@ func c01(r *Report) {
 	})
 
 	r.Guard("C01.R3", "either side asking to close, or shutdown, marks the response close and ends the connection", func() {
+		newResponseCopiesRule(r)
 		closeDecision(r, handle, "")
 		// the loop leaves on errClose: isCloseable(errClose) and the loop test
 		isc := r.Use("", "isCloseable")
@@ -816,7 +817,42 @@ func deadlineSitesRule(r *Report, loop *ssa.Function) {
 			if !cc.IsInvoke() && len(cc.Args) > 0 {
 				recv = cc.Args[0]
 			}
-			okSite := f == loop && len(loop.Params) > 1 && isParamVal(recv, loop.Params[1])
+			okSite := f == loop && len(loop.Params) > 1 && (isParamVal(recv, loop.Params[1]) || isCallValue(recv, "(*M.Session).currentConn"))
+			if okSite {
+				// the deadline is worked out anew for every exchange: the time.Now() it derives from is
+				// taken inside the loop that arms it
+				args := cc.Args
+				fresh := false
+				inLoop := false
+				for _, l := range natLoops(f) {
+					if !l.Blocks[c.Block()] {
+						continue
+					}
+					inLoop = true
+					var walk func(v ssa.Value, depth int)
+					walk = func(v ssa.Value, depth int) {
+						if depth > 6 {
+							return
+						}
+						for _, x := range resolveAll(v) {
+							nc, isC := x.(*ssa.Call)
+							if !isC {
+								continue
+							}
+							switch calleeName(nc) {
+							case "time.Now":
+								if nc.Parent() == f && l.Blocks[nc.Block()] {
+									fresh = true
+								}
+							case "(time.Time).Add", "(time.Time).Round", "(time.Time).Truncate", "(time.Time).UTC", "(time.Time).Local":
+								walk(nc.Call.Args[0], depth+1)
+							}
+						}
+					}
+					walk(args[len(args)-1], 0)
+				}
+				r.Decide("flow", "deadline armed at "+site(f, c)+" is computed for each exchange", inLoop && fresh, "time.Now() is taken inside the connection loop", "the deadline is armed in the loop but worked out outside it (or not from the current time): it is never pushed forward, and a connection that has been open longer than the timeout is cut in the middle of a later exchange, its 502 or its tunnel with it", c.Pos())
+			}
 			r.Decide("callgraph", "deadline armed at "+site(f, c), okSite, "the connection loop, on the client connection", "a deadline is armed on a connection outside the connection loop ("+fnName(f)+"): on an upstream connection it stays armed while the transport reuses the connection, and a later exchange fails when it expires", c.Pos())
 		}
 	}
